@@ -9,10 +9,10 @@ set_option linter.unusedVariables false
 namespace Tbox.C16
 
 /-- a route can be taken on `e`: its event matches (or is the wildcard) and its guard holds -/
-def eligible (r : Route) (e : EventId) : Bool := r.matchesEvent e && Spec.holds r e
+def eligible (r : Route) (e : Event) : Bool := r.matchesEvent e && Spec.holds r e
 
-theorem routeScan_first (sid : StateId) (rt : Rt) (e : EventId) (k : Nat) (rs : List Route) :
-    match (routeScan sid rt e k rs).1 with
+theorem routeScan_first (sid : StateId) (self : Nat) (rt : Rt) (ctx : Ctx) (e : Event) (k : Nat) (rs : List Route) :
+    match (routeScan sid self rt ctx e k rs).1 with
     | some (i, r) => k ≤ i ∧ rs[i - k]? = some r ∧ eligible r e = true ∧ ∀ r' ∈ rs.take (i - k), eligible r' e = false
     | none => ∀ r' ∈ rs, eligible r' e = false := by
   induction rs generalizing k with
@@ -30,7 +30,7 @@ theorem routeScan_first (sid : StateId) (rt : Rt) (e : EventId) (k : Nat) (rs : 
         · simp only [hv, if_false]
           have hne : eligible r e = false := by simp [eligible, hm, Spec.holds, hg, hv]
           have := ih (k + 1)
-          cases hx : (routeScan sid rt e (k + 1) rs).1 with
+          cases hx : (routeScan sid self rt ctx e (k + 1) rs).1 with
           | none =>
             rw [hx] at this
             simp only at this ⊢
@@ -55,7 +55,7 @@ theorem routeScan_first (sid : StateId) (rt : Rt) (e : EventId) (k : Nat) (rs : 
       have hne : eligible r e = false := by simp [eligible, hm']
       simp only [hm', Bool.not_false, if_true]
       have := ih (k + 1)
-      cases hx : (routeScan sid rt e (k + 1) rs).1 with
+      cases hx : (routeScan sid self rt ctx e (k + 1) rs).1 with
       | none =>
         rw [hx] at this
         simp only at this ⊢
@@ -101,7 +101,7 @@ theorem phases_lift (c : StateId) (t : Trace) : phases (lift c t) = [] := by
   | nil => rfl
   | cons ev t ih => simp only [lift, List.map_cons, phases] at ih ⊢; simp [ih]
 
-theorem scriptCall_notPhase (rt : Rt) (c : Call) : isPhase (scriptCall rt c) = false := by
+theorem scriptCall_notPhase (rt : Rt) (t : Option Nat) (c : Call) : isPhase (scriptCall rt t c) = false := by
   cases c <;> simp only [scriptCall]
   · cases startReject rt <;> rfl
   · cases stopReject rt <;> rfl
@@ -110,32 +110,43 @@ theorem scriptCall_notPhase (rt : Rt) (c : Call) : isPhase (scriptCall rt c) = f
     · cases startReject rt <;> rfl
   · cases runReject rt <;> rfl
 
-theorem phases_runScript (rt : Rt) (sc : Script) : phases (runScript rt sc) = [] := by
+theorem scriptOp_notPhase (self : Nat) (rt : Rt) (ctx : Ctx) (op : SOp) : isPhase (scriptOp self rt ctx op) = false := by
+  cases op with
+  | obs t => simp only [scriptOp]; cases targetRt self rt ctx t <;> rfl
+  | call t c =>
+    simp only [scriptOp]
+    cases targetRt self rt ctx t with
+    | none => rfl
+    | some r => exact scriptCall_notPhase r t c
+
+theorem phases_runScript (self : Nat) (rt : Rt) (ctx : Ctx) (sc : Script) : phases (runScript self rt ctx sc) = [] := by
+  unfold runScript
   induction sc with
   | nil => rfl
   | cons op rest ih =>
-    cases op with
-    | obs => simp [runScript, phases, here, isPhase, ih]
-    | call c => simp [runScript, phases, here, scriptCall_notPhase, ih]
+    simp only [List.map_cons, phases]
+    have : isPhase (here (scriptOp self rt ctx op)).kind = false := scriptOp_notPhase self rt ctx op
+    simp only [this, Bool.and_false, Bool.false_eq_true, if_false]
+    exact ih
 
-theorem phases_probe (mk : Bool → Kind) (p : Option Script) (rt : Rt) (h : ∀ b, isPhase (mk b) = true) :
-    phases (probe mk p rt) = [mk p.isSome] := by
+theorem phases_probe (mk : Bool → Kind) (p : Option Script) (self : Nat) (rt : Rt) (ctx : Ctx) (h : ∀ b, isPhase (mk b) = true) :
+    phases (probe mk p self rt ctx) = [mk p.isSome] := by
   unfold probe
   simp only [phases, here, List.isEmpty_nil, h, Bool.and_self, if_true]
   cases p with
   | none => rfl
   | some sc => simp [phases_runScript]
 
-theorem phases_probe_exit (s : StateId) (e : EventId) (p : Option Script) (rt : Rt) :
-    phases (probe (.exit s e) p rt) = [.exit s e p.isSome] := phases_probe _ _ _ (fun _ => rfl)
-theorem phases_probe_enter (s : StateId) (e : EventId) (p : Option Script) (rt : Rt) :
-    phases (probe (.enter s e) p rt) = [.enter s e p.isSome] := phases_probe _ _ _ (fun _ => rfl)
-theorem phases_probe_action (s : StateId) (ri : Option Nat) (e : EventId) (p : Option Script) (rt : Rt) :
-    phases (probe (.action s ri e) p rt) = [.action s ri e p.isSome] := phases_probe _ _ _ (fun _ => rfl)
-theorem phases_probe_notify (a b : StateId) (e : EventId) (p : Option Script) (rt : Rt) :
-    phases (probe (.notify a b e) p rt) = [.notify a b e p.isSome] := phases_probe _ _ _ (fun _ => rfl)
+theorem phases_probe_exit (s : StateId) (e : Event) (p : Option Script) (self : Nat) (rt : Rt) (ctx : Ctx) :
+    phases (probe (.exit s e) p self rt ctx) = [.exit s e p.isSome] := phases_probe _ _ _ _ _ (fun _ => rfl)
+theorem phases_probe_enter (s : StateId) (e : Event) (p : Option Script) (self : Nat) (rt : Rt) (ctx : Ctx) :
+    phases (probe (.enter s e) p self rt ctx) = [.enter s e p.isSome] := phases_probe _ _ _ _ _ (fun _ => rfl)
+theorem phases_probe_action (s : StateId) (ri : Option Nat) (e : Event) (p : Option Script) (self : Nat) (rt : Rt) (ctx : Ctx) :
+    phases (probe (.action s ri e) p self rt ctx) = [.action s ri e p.isSome] := phases_probe _ _ _ _ _ (fun _ => rfl)
+theorem phases_probe_notify (a b : StateId) (e : Event) (p : Option Script) (self : Nat) (rt : Rt) (ctx : Ctx) :
+    phases (probe (.notify a b e) p self rt ctx) = [.notify a b e p.isSome] := phases_probe _ _ _ _ _ (fun _ => rfl)
 
-theorem phases_handlerPhase {Sub : Type} (cs : StateDef Sub) (rt : Rt) (e : EventId) : phases (handlerPhase cs rt e).2 = [] := by
+theorem phases_handlerPhase {Sub : Type} (cs : StateDef Sub) (self : Nat) (rt : Rt) (ctx : Ctx) (e : Event) : phases (handlerPhase cs self rt ctx e).2 = [] := by
   unfold handlerPhase
   split
   · simp [phases, here, isPhase, phases_runScript]
@@ -143,8 +154,8 @@ theorem phases_handlerPhase {Sub : Type} (cs : StateDef Sub) (rt : Rt) (e : Even
     · simp [phases, here, isPhase, phases_runScript]
     · rfl
 
-theorem phases_routeScan (sid : StateId) (rt : Rt) (e : EventId) (i : Nat) (rs : List Route) :
-    phases (routeScan sid rt e i rs).2 = [] := by
+theorem phases_routeScan (sid : StateId) (self : Nat) (rt : Rt) (ctx : Ctx) (e : Event) (i : Nat) (rs : List Route) :
+    phases (routeScan sid self rt ctx e i rs).2 = [] := by
   induction rs generalizing i with
   | nil => rfl
   | cons r rs ih =>
@@ -158,7 +169,7 @@ theorem phases_routeScan (sid : StateId) (rt : Rt) (e : EventId) (i : Nat) (rs :
         · simp [phases_append, phases, here, isPhase, phases_runScript, ih]
 
 /-- what one `run()` call contributes at the machine's own level -/
-def OrderOnce (before after : Option StateId) (e : EventId) (tr : Trace) : Prop :=
+def OrderOnce (before after : Option StateId) (e : Event) (tr : Trace) : Prop :=
   (phases tr = [] ∧ after = before) ∨
   ∃ a b ri h1 h2 h3 h4, before = some a ∧ after = some b ∧
     phases tr = [.exit a e h1, .action a ri e h2, .enter b e h3, .notify a b e h4]
@@ -166,10 +177,10 @@ def OrderOnce (before after : Option StateId) (e : EventId) (tr : Trace) : Prop 
 section
 variable {Sub : Type}
 
-theorem transition_order (ops : SubOps Sub) (m : M Sub) (c : StateId) (hc : m.rt.curr = some c) (e : EventId)
+theorem transition_order (ops : SubOps Ctx Sub) (ctx : Ctx) (m : M Sub) (c : StateId) (hc : m.rt.curr = some c) (e : Event)
     (nextId : StateId) (ridx : Option Nat) (action : Option Script) :
-    OrderOnce m.rt.curr (transition ops m c e nextId ridx action).1.rt.curr e
-      (transition ops m c e nextId ridx action).2.2 := by
+    OrderOnce m.rt.curr (transition ops ctx m c e nextId ridx action).1.rt.curr e
+      (transition ops ctx m c e nextId ridx action).2.2 := by
   unfold transition
   cases m.resolve nextId with
   | none => exact Or.inl ⟨rfl, rfl⟩
@@ -181,24 +192,24 @@ theorem transition_order (ops : SubOps Sub) (m : M Sub) (c : StateId) (hc : m.rt
         simp only [phases_append, phases_lift, List.append_nil, phases_probe_exit, phases_probe_enter,
           phases_probe_action, phases_probe_notify] <;> rfl
 
-theorem runOwn_order (ops : SubOps Sub) (m : M Sub) (c : StateId) (hc : m.rt.curr = some c) (e : EventId) :
-    OrderOnce m.rt.curr (runOwn ops m c e).1.rt.curr e (runOwn ops m c e).2.2 := by
+theorem runOwn_order (ops : SubOps Ctx Sub) (ctx : Ctx) (m : M Sub) (c : StateId) (hc : m.rt.curr = some c) (e : Event) :
+    OrderOnce m.rt.curr (runOwn ops ctx m c e).1.rt.curr e (runOwn ops ctx m c e).2.2 := by
   unfold runOwn
   simp only []
   split
   · split
     · exact Or.inl ⟨by simp [phases_append, phases_handlerPhase, phases_routeScan], rfl⟩
     · rename_i i r _
-      have := transition_order ops m c hc e r.to (some i) r.action
+      have := transition_order ops ctx m c hc e r.to (some i) r.action
       unfold OrderOnce at this ⊢
       simpa [phases_append, phases_handlerPhase, phases_routeScan] using this
-  · have := transition_order ops m c hc e
-      (handlerPhase (m.stateOf c) ⟨m.rt.running, m.rt.curr, m.rt.last, m.rt.next, m.rt.cbLevel + 1⟩ e).1 none none
+  · have := transition_order ops ctx m c hc e
+      (handlerPhase (m.stateOf c) m.mid ⟨m.rt.running, m.rt.curr, m.rt.last, m.rt.next, m.rt.cbLevel + 1⟩ ctx e).1 none none
     unfold OrderOnce at this ⊢
     simpa [phases_append, phases_handlerPhase] using this
 
-theorem run_order (ops : SubOps Sub) (m : M Sub) (e : EventId) :
-    OrderOnce m.rt.curr (run ops m e).1.rt.curr e (run ops m e).2.2 := by
+theorem run_order (ops : SubOps Ctx Sub) (ctx : Ctx) (m : M Sub) (e : Event) :
+    OrderOnce m.rt.curr (run ops ctx m e).1.rt.curr e (run ops ctx m e).2.2 := by
   unfold run
   split
   · exact Or.inl ⟨rfl, rfl⟩
@@ -207,14 +218,14 @@ theorem run_order (ops : SubOps Sub) (m : M Sub) (e : EventId) :
     | some c =>
       simp only []
       cases (m.stateOf c).sub with
-      | none => simp only []; rw [← hc]; exact runOwn_order ops m c hc e
+      | none => simp only []; rw [← hc]; exact runOwn_order ops ctx m c hc e
       | some sub =>
         simp only []
         split
         · exact Or.inl ⟨phases_lift _ _, hc⟩
-        · have := runOwn_order ops (m.setSub c (ops.stop (ops.run sub e).1).1) c (by simpa using hc) e
+        · have := runOwn_order ops ctx (m.setSub c (ops.stop ((m.mid, ⟨m.rt.running, m.rt.curr, m.rt.last, m.rt.next, m.rt.cbLevel + 1⟩) :: ctx) (ops.run ((m.mid, ⟨m.rt.running, m.rt.curr, m.rt.last, m.rt.next, m.rt.cbLevel + 1⟩) :: ctx) sub e).1).1) c (by simpa using hc) e
           unfold OrderOnce at this ⊢
-          simp only [setSub_rt, hc] at this
+          simp only [setSub_rt, hc] at this ⊢
           simpa [phases_append, phases_lift] using this
 
 end
